@@ -66,6 +66,8 @@ pub struct Case {
     pub pre: Vec<u8>,
     pub pre_consumed: usize,
     pub data: Vec<u8>,
+    /// `g<len>.<seed>` when the data is generated rather than spelled out
+    pub data_spec: Option<String>,
     pub sched: Vec<Ev>,
     pub ops: Vec<Op>,
 }
@@ -78,7 +80,7 @@ impl Case {
             self.fault as u8,
             hex(&self.pre),
             self.pre_consumed,
-            hex(&self.data),
+            match &self.data_spec { Some(g) => g.clone(), None => hex(&self.data) },
             fmt_sched(&self.sched),
             fmt_ops(&self.ops)
         )
@@ -90,7 +92,8 @@ impl Case {
             fault: f.num("f") == 1,
             pre: unhex(f.get("pre")),
             pre_consumed: f.num("m"),
-            data: unhex(f.get("d")),
+            data: data_field(f.get("d")),
+            data_spec: if f.get("d").starts_with('g') { Some(f.get("d").to_string()) } else { None },
             sched: parse_sched(f.get("s")),
             ops: parse_ops(f.get("o")),
         }
@@ -352,7 +355,7 @@ impl<'a> Live<'a> {
             "{}|{}|{}|{}|{}{}{}|{}|{}",
             res,
             match &window {
-                Some(w) => hex(w),
+                Some(w) => winhex(w),
                 None => format!("BROKEN{}", blen),
             },
             self.r.position(),
@@ -366,6 +369,19 @@ impl<'a> Live<'a> {
     }
 }
 
+/// Window text: hex when short, `#<len>:<fnv-1a 64>` otherwise (keeps big-buffer cases small).
+fn winhex(w: &[u8]) -> String {
+    if w.len() <= 64 {
+        return hex(w);
+    }
+    let mut h: u64 = 0xcbf29ce484222325;
+    for b in w {
+        h ^= *b as u64;
+        h = h.wrapping_mul(0x100000001b3);
+    }
+    format!("#{}:{:016x}", w.len(), h)
+}
+
 pub fn run_case(c: &Case) -> (String, Vec<String>) {
     let mut live = Live::new(c);
     let mut out = Vec::with_capacity(c.ops.len());
@@ -375,7 +391,49 @@ pub fn run_case(c: &Case) -> (String, Vec<String>) {
     (out.join(";"), live.fails)
 }
 
+/// Large inputs with the realistic chunk sizes (the default 16 KiB included): refill, realign
+/// (cursor beyond 2 chunks) and shrink at the sizes real parsing runs at.
+pub fn gen_big_case(rng: &mut Rng) -> Case {
+    let chunk = *rng.pick(&[512usize, 4096, 16384, 16384]);
+    let len = rng.range(3 * chunk as u64, 12 * chunk as u64) as usize;
+    let seed = rng.below(1000) as usize;
+    let spec = format!("g{}.{}", len, seed);
+    let data = data_field(&spec);
+    let fault = rng.chance(1, 3);
+    let mut sched = vec![];
+    let style = rng.below(3);
+    for _ in 0..rng.range(0, 40) {
+        sched.push(if rng.chance(1, 10) { Ev::Intr } else {
+            match style { 0 => Ev::Give(chunk), 1 => Ev::Give(rng.range(1, chunk as u64) as usize), _ => Ev::Give(rng.range(chunk as u64 / 2, 2 * chunk as u64) as usize) }
+        });
+    }
+    let mut case = Case { chunk, fault, pre: vec![], pre_consumed: 0, data, data_spec: Some(spec), sched, ops: vec![] };
+    let mut live = Live::new(&case);
+    for i in 0..rng.range(10, 60) {
+        let blen = live.r.buf_len();
+        let op = match rng.below(12) {
+            0..=2 => Op::Rq(blen + rng.range(1, 2 * chunk as u64) as usize),
+            3 => Op::Ra(blen + rng.below(chunk as u64) as usize),
+            4 => Op::Rm,
+            5..=8 => {
+                // consume most of what is buffered: drives pos_in_buf beyond 2 chunks
+                let n = if rng.chance(2, 3) { blen } else { rng.range(0, blen as u64) as usize };
+                if rng.chance(1, 4) { Op::Ab(n.min(64)) } else { Op::Ad(n) }
+            }
+            9 => Op::Sm,
+            10 => Op::Sc(*rng.pick(&[512usize, 4096, 16384])),
+            _ => Op::Ck,
+        };
+        case.ops.push(op);
+        live.step(i as usize, op);
+    }
+    case
+}
+
 pub fn gen_case(rng: &mut Rng, with_lies: bool, thorough: bool) -> Case {
+    if !with_lies && rng.chance(1, 100) {
+        return gen_big_case(rng);
+    }
     let chunk = *rng.pick(&[1usize, 1, 2, 2, 3, 4, 5, 7, 8, 9, 16, 16384]);
     let maxlen = if thorough { 400 } else { 120 };
     let len = match rng.below(10) {
@@ -417,6 +475,7 @@ pub fn gen_case(rng: &mut Rng, with_lies: bool, thorough: bool) -> Case {
         pre,
         pre_consumed,
         data,
+        data_spec: None,
         sched,
         ops: vec![],
     };
